@@ -338,6 +338,21 @@ def register(reg):  # noqa: F811
     kk.ens("lands-in-this-engine", lambda c: B(eng(c, c.result.z) == c.self.z))
     kk = sel_result("sql._engine:Engine.materialize", lambda c: V.rows(c.target.z))
     kk.req("target-columns-truthful-in-this-engine", lambda c: B(z3.And(truthful_cols(c, c.target.z), eng(c, c.target.z) == c.self.z)))
+    # C19: the SQL override hands name / name_prefix to the base implementation untouched -- the materialization it wraps keeps an
+    # explicit name, and a generated one starts with the requested prefix and ends with this call's uuid
+    from contracts.names import uuid_hex
+    from pyvc.types import OptStr as _OS
+    from pyvc.smt import TStr as _TStr
+
+    kk.properties = tuple(kk.properties) + ("C19",)
+    wrapped = lambda c: S(c, "skip_to")(c.result.z)  # noqa: E731
+    new_mat = lambda c: z3.And(smt.typ(wrapped(c)) == cid(c, "Materialization"), c.allocated_by_call(wrapped(c)))  # noqa: E731
+    mname = lambda c: c.ex.types.attr_symbol(c.ex.repo.cls("Materialization"), "name", _TStr)(wrapped(c))  # noqa: E731
+    kk.ens("explicit-name-kept", lambda c: B(z3.Implies(z3.And(new_mat(c), _OS.is_os_some(c.name.z)), mname(c) == _OS.os_val(c.name.z))))
+    kk.ens("generated-name-has-prefix-and-fresh-uuid",
+           lambda c: B(z3.Implies(z3.And(new_mat(c), _OS.is_os_none(c.name.z)),
+                                  z3.And(z3.PrefixOf(c.name_prefix.z, mname(c)),
+                                         z3.SuffixOf(uuid_hex(c.state.ghost["last_uuid"]), mname(c)) if "last_uuid" in c.state.ghost else z3.BoolVal(False)))))
 
     # ------------------------------------------------------------------ Select.reapply (the marker protocol, used by the Processor)
     k = reg.contracts.get("sql._select:Select.reapply")
